@@ -66,6 +66,8 @@ func Main(c *run.Ctx) {
 		c.Floor("proto:"+p, 1, 0)
 	}
 	c.Floor("multi-chunk bodies", 2, 0)
+	c.Floor("bodies read by a late reader: single-portion", c.Pick(20, 400), 0)
+	c.Floor("bodies read by a late reader: multi-portion", c.Pick(3, 60), 0)
 	c.Floor("multi-stream bodies checked for stream isolation", c.Pick(100, 2000), 0)
 }
 
@@ -203,6 +205,86 @@ func allDocs(proto string, body []byte) (map[string]bool, error) {
 	return out, perr
 }
 
+// samplesOf reads what the protocol's parser hands over for a body; pause is how long the reader stays away
+// before it takes each portion (0 = takes them as they come).
+func samplesOf(proto string, body []byte, pause time.Duration) (map[string]int, int, error) {
+	if proto == "loki-proto" || proto == "remote-write" {
+		b, err := gen.Unsnappy(body)
+		if err != nil {
+			return nil, 0, err
+		}
+		body = b
+	}
+	out := map[string]int{}
+	portions := 0
+	var perr error
+	res := isoParsers[proto](parserCtx(), bytes.NewReader(body), nocache{})
+	for {
+		if pause > 0 && portions < 4 {
+			time.Sleep(pause)
+		}
+		rsp, ok := <-res
+		if !ok {
+			break
+		}
+		if rsp.Error != nil {
+			perr = rsp.Error
+			continue
+		}
+		portions++
+		if sp, ok := rsp.SamplesRequest.(*wmodel.TimeSamplesData); ok && sp != nil {
+			for k := range sp.MFingerprint {
+				out[fmt.Sprintf("%d|%d|%q|%v|%d", sp.MFingerprint[k], sp.MTimestampNS[k], sp.MMessage[k], sp.MValue[k], sp.MType[k])]++
+			}
+		}
+	}
+	return out, portions, perr
+}
+
+// slowReader: the parsers hand a body over in portions through a channel; what they hand over may not depend on
+// how promptly the other side takes each portion (a request handler on a starved or briefly stopped process
+// comes back late). The same body is read once promptly and once by a reader that stays away 1.3 s before every
+// portion; both must receive the same samples.
+func slowReader(c *run.Ctx, gi int, proto string, body []byte) {
+	fast, pf, errF := samplesOf(proto, body, 0)
+	slow, ps, errS := samplesOf(proto, body, 1300*time.Millisecond)
+	if errF != nil || errS != nil {
+		if (errF == nil) != (errS == nil) {
+			c.Violation("late-reader/outcome-differs/"+proto, fmt.Sprintf("%s: a prompt reader of the parser's portions got error %v, one that takes each portion 1.3 s late got %v", proto, errF, errS),
+				map[string]any{"case": gi, "proto": proto})
+		}
+		return
+	}
+	multi := "single-portion"
+	if pf > 1 {
+		multi = "multi-portion"
+	}
+	c.Floor("bodies read by a late reader: "+multi, 0, 1)
+	var miss, extra []string
+	for k, n := range fast {
+		if slow[k] < n {
+			miss = append(miss, k)
+		}
+	}
+	for k, n := range slow {
+		if fast[k] < n {
+			extra = append(extra, k)
+		}
+	}
+	if len(miss)+len(extra) > 0 || pf != ps {
+		sort.Strings(miss)
+		sort.Strings(extra)
+		if len(miss) > 2 {
+			miss = miss[:2]
+		}
+		if len(extra) > 2 {
+			extra = extra[:2]
+		}
+		c.Violation("late-reader/samples-differ/"+proto+"/"+multi, fmt.Sprintf("%s: a reader that takes each portion 1.3 s late received %d portion(s) and different samples than a prompt reader (%d portions): missing e.g. %v, extra e.g. %v",
+			proto, ps, pf, miss, extra), map[string]any{"case": gi, "proto": proto, "portions_prompt": pf, "portions_late": ps})
+	}
+}
+
 // influxLookalikes: two different series of the line protocol whose lines read the same once the escapes are
 // taken away (a tag value holding `,host=a` beside a tag `host=a`; a measurement holding `,env=prod` beside a tag
 // `env=prod`). In one body each must become what it becomes when it travels alone.
@@ -289,6 +371,8 @@ func Child(c *run.Ctx, name string) {
 	w := chw.StartWriter(cfg.Writer, led)
 	sess := chw.NewSession(w)
 	items := make([]*item, cfg.N)
+	var late sync.WaitGroup
+	defer late.Wait()
 	for i := 0; i < cfg.N; i++ {
 		gi := cfg.Start + i
 		r := c.Rng(fmt.Sprintf("c03/case/%d", gi))
@@ -299,6 +383,7 @@ func Child(c *run.Ctx, name string) {
 			o.Big = true
 		}
 		o.TTLLabel = gi%4 == 1 || o.Big && gi%2 == 0
+		o.Unordered = gi%3 == 1
 		if r.Intn(8) == 0 {
 			o.Streams = 20 + r.Intn(30)
 		}
@@ -310,6 +395,13 @@ func Child(c *run.Ctx, name string) {
 		}
 		if gi%10 == 4 {
 			influxLookalikes(c, gi)
+		}
+		if gi%50 == 9 || gi%185 == 5 { // 185 = 5*37: big bodies (several portions), every protocol in turn
+			late.Add(1)
+			go func(body []byte) {
+				defer late.Done()
+				slowReader(c, gi, proto, body)
+			}(rq.Body)
 		}
 		key := fmt.Sprintf("%s|multi=%v|streams=%s|entries=%s|hostile=%v", proto, rq.MultiChunk, classN(len(lc.Streams)), classN(ne), o.Hostile)
 		items[i] = &item{idx: gi, req: rq, lc: lc, key: key}
